@@ -1,4 +1,4 @@
-import KalignModel.Props.C14
+import KalignModel.Props.Pipeline
 #print axioms Kalign.C14_codes_case_invariant
 #print axioms Kalign.C14_codes_TU
 #print axioms Kalign.C14_codes_defined
@@ -6,3 +6,12 @@ import KalignModel.Props.C14
 #print axioms Kalign.C14_detect_sets_TU
 #print axioms Kalign.C14_detect_respell_invariant
 #print axioms Kalign.C14_convert_respell_invariant
+#print axioms Kalign.Pipeline.kalignRunWith_codes_only
+#print axioms Kalign.Pipeline.kalignRun_codes_only
+#print axioms Kalign.Pipeline.kalignRunWith_respell_invariant
+#print axioms Kalign.Pipeline.kalignRunWith_case_invariant
+#print axioms Kalign.Pipeline.kalignRunExact_case_invariant
+#print axioms Kalign.Pipeline.kalignRun_case_invariant_partial
+#print axioms Kalign.Pipeline.kalignRunWith_TU_invariant
+#print axioms Kalign.Pipeline.kalignRunExact_TU_invariant
+#print axioms Kalign.Pipeline.kalignRun_TU_invariant_partial
